@@ -458,7 +458,8 @@ def estimate_zscore(
         if scale_method == "norm"
         else estimate_scale(data, scale_method, axis, keepdims=True)
     )
-    zero_scales = np.isclose(scale, 0)
+    # an undefined scale (too few samples for the estimator) is treated like a zero one
+    zero_scales = np.isclose(scale, 0) | ~np.isfinite(scale)
     if np.any(zero_scales):
         scale = np.where(zero_scales, 1, scale)
 
